@@ -246,7 +246,9 @@ class NBuilder(object):
             out.append(0.0)
         if even and len(out) % 2:
             out.append(0.0)
-        return tuple(out)
+        # a list, never a tuple: contracts use "tuple" for the fixed shapes (one or two explicit pairs) and "sequence"
+        # for this one, and state different preconditions for them (e.g. arc samples are absolute coordinates)
+        return list(out)
 
     def opaque_regex(self, name):
         builder = self
@@ -509,7 +511,8 @@ def replay(req):
     f = NFrame(self_obj, locs, ghost)
     out = {"function": req["function"], "obligation": req["obligation"], "inputs": describe(locs), "ghost": describe(ghost)}
     if b.rnd is not None:
-        out["assignment"] = {"values": dict(b.model.items()), "choices": list(b.made_choices)}
+        out["assignment"] = {"values": dict(b.model.items()), "choices": list(b.made_choices),
+                             "seed": (req.get("model") or {}).get("__random__")}
     pre_ok = True
     for cl in con.requires_:
         try:
@@ -559,6 +562,7 @@ def replay(req):
         out["raised"] = "%s: %s" % (type(e).__name__, e)
         out["traceback"] = traceback.format_exc().splitlines()[-6:]
     out["state_after"] = describe(locs)
+    out["ghost_after"] = describe(ghost)
     # evaluate the obligation
     name = req["obligation"].split("/", 1)[1] if "/" in req["obligation"] else req["obligation"]
     reproduced = None
